@@ -35,7 +35,7 @@ Definition w_unstack : sframe val (tup * tup) tup :=
 
 Theorem unstack_fill_cast_refuted :
   exists fr,
-    M_unstack_v (VFlt 1 2) [Ok (VInt 0)] w_unstack = Ok fr /\
+    res_map unstack_view (M_unstack tup_eqb tup_eqb true (VFlt 1 2) [Ok (VInt 0)] w_unstack) = Ok fr /\
     sf_cells fr = [[VInt 1; VInt 0]; [VInt 2; VInt 3]] /\
     vsframe_keyed_eqb (S_unstack_v (VFlt 1 2) w_unstack) fr = false /\
     vget (S_unstack_v (VFlt 1 2) w_unstack) [VStr "p"] [VStr "v"; VStr "y"] = VFlt 1 2.
